@@ -230,6 +230,10 @@ def build(files, opts=None, stage="correlate", proj_body="", root=None, keep=Fal
                 if settings_hook:
                     settings_hook(s)
                 run.settings = s
+                if stage == "write" and not os.environ.get("VERIF_REPLICA_MAIN"):
+                    # the complete pipeline is FORD's own ford.main(): only the objects it creates are recorded
+                    _run_real_main(run, s, proj_body)
+                    return run
                 project = ford.fortran_project.Project(s)
                 run.project = project
                 run.stage_reached = "parse"
@@ -284,6 +288,44 @@ def build(files, opts=None, stage="correlate", proj_body="", root=None, keep=Fal
             # sources are no longer needed once parsed (raw_src is held in memory)
             shutil.rmtree(run.root, ignore_errors=True)
     return run
+
+
+def _run_real_main(run, settings, proj_body):
+    """call ford.main(settings, project-file text) and record the Project / MetaMarkdown / Documentation it builds."""
+    import ford
+    import ford.fortran_project as fp
+    import ford.output as fo
+
+    real_project, real_docs, real_md = fp.Project, fo.Documentation, ford.MetaMarkdown
+
+    class Project(real_project):
+        def __init__(self, *a, **k):
+            run.project = self
+            super().__init__(*a, **k)
+            run.stage_reached = "parse"
+
+        def correlate(self, *a, **k):
+            super().correlate(*a, **k)
+            run.stage_reached = "correlate"
+
+    class Documentation(real_docs):
+        def __init__(self, data, proj_docs, project, pagetree):
+            run.proj_docs, run.page_tree = proj_docs, pagetree
+            run.stage_reached = "markdown"
+            run.docs = self
+            super().__init__(data, proj_docs, project, pagetree)
+            run.stage_reached = "docs"
+
+    def MetaMarkdown(*a, **k):
+        run.md = real_md(*a, **k)
+        return run.md
+
+    fp.Project, fo.Documentation, ford.MetaMarkdown = Project, Documentation, MetaMarkdown
+    try:
+        ford.main(settings, proj_body)
+        run.stage_reached = "write"
+    finally:
+        fp.Project, fo.Documentation, ford.MetaMarkdown = real_project, real_docs, real_md
 
 
 def parse_source(text, name="t.f90", **opts):
